@@ -226,6 +226,28 @@ pub fn gen_session(seed: u64, run: u64, thorough: bool) -> Session {
             ops.push(PlannedOp::tagged(Op::Watched { changes: vec![(doc_uri(d), *rng.pick(&[1u32, 2, 2]))] }, "watched.open_document"));
             ops.push(PlannedOp::new(Op::ProbeText { uri: doc_uri(d) }));
         }
+        if brng.chance(1, 6) {
+            // The editor closes a document and opens it again later (a tab closed and re-opened, a
+            // branch switched): in between the file is nobody's - a file event may report it
+            // deleted or changed, another document may be opened - and after the re-open it is
+            // the editor's again, with the text of the new didOpen.
+            let d = brng.below(ndocs);
+            ops.push(PlannedOp::tagged(Op::Close { uri: doc_uri(d) }, "close"));
+            if brng.chance(1, 2) {
+                ops.push(PlannedOp::tagged(Op::Watched { changes: vec![(doc_uri(d), *brng.pick(&[3u32, 3, 2, 1]))] }, "watched.closed_document"));
+            }
+            if brng.chance(1, 2) {
+                let extra = doc_uri(10 + round);
+                ops.push(PlannedOp::tagged(Op::Open { uri: extra.clone(), text: gen_text(&mut brng, 12) }, "open.another_document_meanwhile"));
+                ops.push(PlannedOp::new(Op::ProbeText { uri: extra }));
+            }
+            let text = if brng.chance(1, 3) { models[d].text.clone() } else { gen_text(&mut brng, 30) };
+            ops.push(PlannedOp::tagged(Op::Open { uri: doc_uri(d), text: text.clone() }, "open.again_after_close"));
+            models[d] = DocModel { text };
+            for k in 0..ndocs {
+                ops.push(PlannedOp::new(Op::ProbeText { uri: doc_uri(k) }));
+            }
+        }
         let d = rng.below(ndocs);
         let mut edits = Vec::new();
         let mut tags: Vec<String> = Vec::new();
@@ -456,6 +478,10 @@ pub fn check(s: &Session, h: &History, stats: &mut Stats) -> Option<Violation> {
                 let mut t = vec!["open".to_string()];
                 t.extend(p.tags.iter().cloned());
                 last_tags.insert(uri.clone(), t);
+            }
+            Op::Close { uri } => {
+                // not the editor's any more (until it is opened again)
+                models.remove(uri);
             }
             Op::Change { uri, edits } => {
                 if let Some(m) = models.get_mut(uri) {
